@@ -57,6 +57,7 @@ def summarise(cases):
         d["workload_crashed"] += 1 if s["crashed"] else 0
         d["programs_with_twin_module"] += 1 if s.get("twin") else 0
         d["recorder_errors"] += 1 if s["errors"] else 0
+        d["programs_with_over_1000_live_frames"] += 1 if s.get("many_live") else 0
     return dict(sorted(d.items()))
 
 
